@@ -18,7 +18,7 @@ EXPLANATION = (
     "L1: with non-idempotent serializers (v -> 2v+1, s -> s+'!') z3 proves for every int and short string that "
     "destinations see the serializer applied exactly once, undeclared fields untouched and caller-owned dicts "
     "unmodified even with global fields registered, for stand-alone, start, success and failure messages. "
-    "E1: every subset of raising serializers / missing fields per message kind inside nested actions: the message "
+    "E1: every subset of raising serializers (SerBoom, StopIteration, KeyError, TypeError, or a BaseException that is no Exception) / missing fields per message kind inside nested actions: the message "
     "is withheld, exactly one traceback and one serialization_failure are logged in the current context, the call returns."
 )
 ASSUMPTIONS = ["serializers are pure functions of their argument apart from the injected faults"]
